@@ -30,11 +30,33 @@ def run(ctx, sess):
     ctx.rule('C08.5', 'count: incremented on every path to a non-NULL return of the allocator, decremented only when pop delivers a message, zeroed by clear')
     ctx.rule('C08.6', 'peek and pop do not store into the ring memory; the allocator stores only size prefixes and the wrap marker')
     fns = {f.name: f for f in P.fns_in(F)}
-    for need in ('jls_mrb_alloc', 'jls_mrb_peek', 'jls_mrb_pop', 'add_sz', 'get_sz', 'jls_mrb_clear'):
+    for need in ('jls_mrb_alloc', 'jls_mrb_peek', 'jls_mrb_pop', 'jls_mrb_clear'):
         if need not in fns:
             raise AnalysisBroken('%s not found in %s' % (need, F))
         ctx.saw(fns[need])
-    alloc, peek, pop, enc, dec, clear = (fns[n] for n in ('jls_mrb_alloc', 'jls_mrb_peek', 'jls_mrb_pop', 'add_sz', 'get_sz', 'jls_mrb_clear'))
+    alloc, peek, pop, clear = (fns[n] for n in ('jls_mrb_alloc', 'jls_mrb_peek', 'jls_mrb_pop', 'jls_mrb_clear'))
+    # the prefix encoder / decoder are found by what they do, not by name: the helper of this file the
+    # allocator calls that stores through an indexed pointer, and the helper peek calls that returns
+    # indexed loads.
+    def helper(of, pred):
+        c = [fns[ev.callee] for ev in of.calls() if ev.callee in fns and fns[ev.callee].static and pred(fns[ev.callee])]
+        return c[0] if c and all(x is c[0] for x in c) else None
+    enc = helper(alloc, lambda f: any(strip_casts(ev.store_parts()[0]).get('op') == 'sub' for ev in f.stores()))
+    dec = helper(peek, lambda f: not list(f.stores()) and any(nd.get('op') == 'sub' for r in f.returns() for nd in walk(r.e or {})))
+    if enc is None or dec is None:
+        raise AnalysisBroken('size prefix encoder / decoder of %s not found (encoder %s, decoder %s)' % (F, enc and enc.name, dec and dec.name))
+    ctx.saw(enc)
+    ctx.saw(dec)
+    ENC, DEC = enc.name, dec.name
+    # the local of peek that holds the decoded prefix
+    szvars = set()
+    for ev in list(peek.stores()) + [e for e in peek.events() if e.k == 'decl']:
+        rhs = ev.store_parts()[1] if ev.k == 'store' else getattr(ev, 'init', None)
+        if rhs is not None and any(nd.get('op') == 'call' and nd.get('callee') == DEC for nd in walk(rhs)):
+            szvars.add(strip_casts(ev.store_parts()[0]).get('name') if ev.k == 'store' else ev.name)
+    if len(szvars) != 1:
+        raise AnalysisBroken('jls_mrb_peek: decoded prefix held in %s' % sorted(szvars, key=str))
+    SZ = szvars.pop()
 
     # ---- C08.1
     enc_bytes = set()
@@ -79,12 +101,28 @@ def run(ctx, sess):
         if e is not None and e.get('op') == 'bin' and e['o'] == '+' and const_of(e['k'][1]) == 4:
             okp = True
     ctx.ob('C08.1', okp, peek.name, 'message starts 4 bytes after the decoded prefix', peek.where(), '')
+    # the size delivered is the decoded prefix itself (a mask must keep every bit a non-marker prefix can hold)
+    deliv = []
+    for ev in peek.stores():
+        lhs, rhs, o = ev.store_parts()
+        l0 = strip_casts(lhs)
+        if l0.get('op') == 'un' and l0.get('o') == '*' and strip_casts(l0['k'][0]).get('name') == peek.params[1]['name'] and rhs is not None and const_of(rhs) is None:
+            r0 = strip_casts(rhs)
+            mask = 0xffffffff
+            if r0.get('op') == 'bin' and r0['o'] == '&' and const_of(r0['k'][1]) is not None:
+                mask = const_of(r0['k'][1]) & 0xffffffff
+                r0 = strip_casts(r0['k'][0])
+            same = r0.get('op') == 'ref' and r0.get('name') == SZ and o == '=' and (mask & 0x7fffffff) == 0x7fffffff
+            deliv.append((ev, same, mask))
+    ctx.ob('C08.1', bool(deliv) and all(x[1] for x in deliv), peek.name, 'the size delivered is the decoded prefix', peek.where(),
+           '*%s = %s' % (peek.params[1]['name'], SZ) if deliv and all(x[1] for x in deliv) else
+           'the consumer delivers something other than the size the allocator stored: %s' % [show(x[0].e)[:60] for x in deliv if not x[1]])
     # the allocator hands out what the encoder returned
-    enc_calls = [c for c in alloc.calls('add_sz')]
+    enc_calls = [c for c in alloc.calls(ENC)]
     handed = False
     for ev in alloc.stores():
         lhs, rhs, o = ev.store_parts()
-        if rhs is not None and any(nd.get('op') == 'call' and nd.get('callee') == 'add_sz' for nd in walk(rhs)):
+        if rhs is not None and any(nd.get('op') == 'call' and nd.get('callee') == ENC for nd in walk(rhs)):
             l0 = strip_casts(lhs)
             for r in alloc.returns():
                 e = strip_casts(r.e) if r.e is not None else None
@@ -137,7 +175,7 @@ def run(ctx, sess):
     tests = []
     for b in peek.blocks.values():
         c = strip_casts(b.cond) if b.cond is not None else None
-        if c is not None and c.get('op') == 'bin' and c['o'] in ('>=', '>', '&') and const_of(c['k'][1]) is not None and strip_casts(c['k'][0]).get('name') == 'sz':
+        if c is not None and c.get('op') == 'bin' and c['o'] in ('>=', '>', '&') and const_of(c['k'][1]) is not None and strip_casts(c['k'][0]).get('name') == SZ:
             tests.append((c['o'], const_of(c['k'][1]), b))
     okm = bool(markers) and bool(tests) and all(
         any((o == '>=' and m >= v) or (o == '>' and m > v) or (o == '&' and (m & v)) for (o, v, _) in tests) for m in markers)
@@ -147,7 +185,7 @@ def run(ctx, sess):
     ok0 = False
     for (o, v, b) in tests:
         w = find_path(peek, (b, 0), lambda ev, facts: 'stop' if (ev.k == 'store' and strip_casts(ev.store_parts()[0]).get('field') == 'tail' and const_of(ev.store_parts()[1]) == 0) else
-                      ('target' if (ev.k == 'call' and ev.callee == 'get_sz') else None), refine=False)
+                      ('target' if (ev.k == 'call' and ev.callee == DEC) else None), refine=False)
         ok0 = w is None
     ctx.ob('C08.3', ok0, peek.name, 'after a marker the consumer continues at offset 0', peek.where(), '')
     # the marker is written before the allocator moves to offset 0
@@ -207,4 +245,4 @@ def run(ctx, sess):
         l0 = strip_casts(ev.store_parts()[0])
         if l0.get('op') in ('sub', 'un'):
             wr.append(show(ev.e)[:40])
-    ctx.ob('C08.6', not wr, alloc.name, 'the allocator writes the ring only through the prefix encoder', alloc.where(), 'direct stores: %s' % wr if wr else 'add_sz only')
+    ctx.ob('C08.6', not wr, alloc.name, 'the allocator writes the ring only through the prefix encoder', alloc.where(), 'direct stores: %s' % wr if wr else '%s only' % ENC)
